@@ -1,0 +1,51 @@
+//! Verification hooks. Compiled only with `--cfg tablegen_lsp_verif`.
+//!
+//! Schedule points: the main loop and the worker tasks report when they reach a
+//! synchronisation point by calling a process-global callback, which a harness can use to
+//! log the step and to pause the calling thread (controlled scheduling). Without a callback
+//! every point is a no-op.
+
+use std::cell::Cell;
+use std::sync::atomic::{AtomicU64, Ordering};
+use std::sync::{Arc, RwLock};
+
+pub type Callback = dyn Fn(&'static str, u64) + Send + Sync;
+
+static CALLBACK: RwLock<Option<Arc<Callback>>> = RwLock::new(None);
+static NEXT_TASK_ID: AtomicU64 = AtomicU64::new(1);
+
+thread_local! {
+    static CURRENT_TASK: Cell<u64> = const { Cell::new(0) };
+}
+
+pub fn set_callback(callback: Option<Arc<Callback>>) {
+    *CALLBACK.write().unwrap() = callback;
+}
+
+pub fn next_task_id() -> u64 {
+    NEXT_TASK_ID.fetch_add(1, Ordering::SeqCst)
+}
+
+/// A schedule point of the main loop, or of the task `id`.
+pub fn point(name: &'static str, id: u64) {
+    let callback = CALLBACK.read().unwrap().clone();
+    if let Some(callback) = callback {
+        callback(name, id);
+    }
+}
+
+/// A schedule point of the task running on the current thread.
+pub fn task_point(name: &'static str) {
+    point(name, CURRENT_TASK.with(|t| t.get()));
+}
+
+/// Runs `f` as task `id`, reporting its start and its end (after everything it owns,
+/// in particular its database snapshot, has been dropped).
+pub fn run_task<T>(id: u64, f: impl FnOnce() -> T) -> T {
+    CURRENT_TASK.with(|t| t.set(id));
+    point("task.start", id);
+    let result = f();
+    point("task.end", id);
+    CURRENT_TASK.with(|t| t.set(0));
+    result
+}
